@@ -29,6 +29,8 @@ for sid in sorted(os.listdir(os.path.join(V, 'seeded'))):
         if r.get('broken'):
             parts.append('tie/proof breaks')
         parts.append(('oracle/correspondence: `%s`' % key) if key else 'tie/proof only')
+        if m.get('neutralised_by'):
+            parts.append('(harmless now: ' + m['neutralised_by'][:120] + '…)')
         how = ' + '.join(parts)
         rows.append(f"| {sid} | {m['property']} | {origin} | {what} | {how} | {'yes' if ci else 'no (no-failing-input-found)'} |")
     else:
